@@ -902,6 +902,9 @@ func runC18(ctx *common.Ctx) error {
 	if err := x.removeUserFiles(); err != nil {
 		return err
 	}
+	if err := x.removeUserFailing(); err != nil {
+		return err
+	}
 
 	// ---- F. the library's reference connector (connector.Dummy): credential matrix ----
 	if err := x.dummyCredentials(); err != nil {
